@@ -119,6 +119,24 @@ func c16Run(c *core.Ctx) {
 				fail("NewCharRecipe alphabet", fmt.Sprintf("default alphabet %q, documented %q", got, want))
 			}
 		}
+		// defaults must survive a caller tinkering with an earlier result
+		{
+			item()
+			r1 := spg.NewCharRecipe(5)
+			r1.Allow, r1.Exclude, r1.Require = spg.Digits, 0, spg.Symbols
+			r1.AllowChars, r1.ExcludeChars, r1.RequireSets = "xyz", "9", []string{"x"}
+			r2 := spg.NewCharRecipe(7)
+			if r1 == r2 || r1.Length != 5 || r2.Length != 7 || r2.Allow != spg.Letters|spg.Digits|spg.Symbols || r2.Exclude != spg.Ambiguous || r2.Require != 0 || r2.AllowChars != "" || r2.ExcludeChars != "" || len(r2.RequireSets) != 0 {
+				fail("NewCharRecipe after modification", fmt.Sprintf("after an earlier result was modified, NewCharRecipe(7) = %+v (earlier: %+v, same pointer: %v)", *r2, *r1, r1 == r2))
+			}
+			wl0, _ := spg.NewWordList([]string{"ab", "cd"})
+			w1 := spg.NewWLRecipe(3, wl0)
+			w1.Capitalize, w1.SeparatorChar, w1.SeparatorFunc = spg.CSAll, "-", spg.SFDigits1
+			w2 := spg.NewWLRecipe(2, wl0)
+			if w1 == w2 || w1.Length != 3 || w2.Length != 2 || w2.Capitalize != spg.CSNone || w2.SeparatorChar != "" || w2.SeparatorFunc != nil {
+				fail("NewWLRecipe after modification", fmt.Sprintf("after an earlier result was modified, NewWLRecipe(2) = %+v", *w2))
+			}
+		}
 		wl, _ := spg.NewWordList([]string{"ab", "cd"})
 		for _, n := range []int{0, 1, 4} {
 			item()
@@ -161,9 +179,27 @@ func c16Run(c *core.Ctx) {
 		names = append(names, k)
 	}
 	sort.Strings(names)
+	type job struct{ before, name string }
+	var jobs []job
 	for _, name := range names {
+		jobs = append(jobs, job{"", name})
+	}
+	for _, a := range names {
+		for _, b := range names {
+			if a != b {
+				jobs = append(jobs, job{a, b}) // preset b used after preset a in the same process
+			}
+		}
+	}
+	for _, jb := range jobs {
 		if !c.Mine() {
 			continue
+		}
+		name := jb.name
+		if jb.before != "" {
+			// use the other preset first (its complete cell), then judge this one
+			fa := presetFuncs[jb.before]
+			exploreCell(func() (*spg.Password, error) { fa(); return nil, fmt.Errorf("x") }, CellOpt{DepthCut: 8, Fallback: 2, MaxMenu: 4096, MaxLeaves: 100000, Dev: -1}, func(l *Leaf) {})
 		}
 		want := presets[name]
 		f := presetFuncs[name]
@@ -190,6 +226,9 @@ func c16Run(c *core.Ctx) {
 		c.Count("edges", st.Edges)
 		c.Count("items_checked", 1)
 		key := "preset " + name
+		if jb.before != "" {
+			key = "preset " + name + " after " + jb.before
+		}
 		wantSet := map[string]bool{}
 		for _, w := range want {
 			wantSet[w] = true
@@ -283,7 +322,7 @@ func init() {
 	Register(&core.Check{
 		ID:    "C16",
 		Level: "exploration",
-		Rule: "the finite configuration space is enumerated completely: each class flag and named combination (Alphabet() of the recipe allowing exactly it), constructor defaults for several lengths, scheme/token/budget constants, the complete cell of draws of each of the 7 separator presets (every value, exact probability, entropy), and every entry of both shipped lists against its data file; documented values are transcribed into the checker; " +
+		Rule: "the finite configuration space is enumerated completely: each class flag and named combination (Alphabet() of the recipe allowing exactly it), constructor defaults for several lengths, scheme/token/budget constants, the complete cell of draws of each of the 7 separator presets (every value, exact probability, entropy) - alone and after each other preset has been used in the same process (42 ordered pairs) -, constructors called again after an earlier result was modified, and every entry of both shipped lists against its data file; documented values are transcribed into the checker; " +
 			"non-trivial = distinct (item, observed value) pairs",
 		Assume:    []string{"the data files under /repo/testdata are the reference for the shipped lists"},
 		Run:       c16Run,
